@@ -33,6 +33,8 @@ structure CondReq where
   g : G
   bits : List Nat
   post : List Nat
+  /-- `false` for a conditional gate that is not directly followed by the final `measure_all` (`post -`) -/
+  hasFinal : Bool := true
   oldIds : List Nat
   newIds : List Nat
 
@@ -43,7 +45,7 @@ def parseCond (segs : List (List String)) : Option CondReq :=
     match splitSemis condw, splitSemis ids with
     | [ctl, [t], g :: bits], [oldIds, newIds] => do
       some ⟨← parseBackend be, ← nat? nq, ← nats? cs, ← sts.mapM qs?, ← words? reg, ← nats? ctl, ← word? t,
-        ← parseG g, ← nats? bits, ← nats? post, ← nats? oldIds, ← nats? newIds⟩
+        ← parseG g, ← nats? bits, ← (if post = ["-"] then some [] else nats? post), post != ["-"], ← nats? oldIds, ← nats? newIds⟩
     | _, _ => none
   | _ => none
 
@@ -62,7 +64,8 @@ def condAnswer (r : CondReq) : String :=
       let finals := (List.zip shots r.reg).map fun sw =>
         stepShot r.be r.nq (.measureAll r.post) ⟨sw.1, sw.2⟩
       let fin := finals.map fun f => match f with | .ok s => toString s.word.toNat | .err .. => "err" | .panic _ => "panic"
-      s!"ok counts {joinNats st'.counts} | states {" ".intercalate (st'.states.map showQs)} | reg {joinWords r.reg} | final {" ".intercalate fin}"
+      let finText := if r.hasFinal then " ".intercalate fin else "-"
+      s!"ok counts {joinNats st'.counts} | states {" ".intercalate (st'.states.map showQs)} | reg {joinWords r.reg} | final {finText}"
 
 def handle (line : String) : String :=
   let segs := splitBars (words line)
@@ -106,7 +109,7 @@ def specCond (r : CondReq) (ans : String) : String :=
   else
   match splitBars (words ans) with
   | ("ok" :: "counts" :: cs) :: ("states" :: sts) :: ("reg" :: reg) :: ("final" :: fin) :: _ =>
-    match nats? cs, sts.mapM qs?, words? reg, words? fin with
+    match nats? cs, sts.mapM qs?, words? reg, (if r.hasFinal then words? fin else some []) with
     | some cs, some sts, some reg, some fin =>
       let g := fun qs => (applyG r.g r.bits qs).getD qs
       let oldShots := expandCounts r.counts r.states
@@ -128,7 +131,7 @@ def specCond (r : CondReq) (ans : String) : String :=
         else
           let expFinal := (List.zip expected r.reg).map fun sw =>
             Spec.Bits.writeAll (fun q => sw.1.getD q false) r.post 0 sw.2
-          if fin != expFinal then "fail conditional-per-shot final-measurement-differs"
+          if r.hasFinal && fin != expFinal then "fail conditional-per-shot final-measurement-differs"
           else "ok"
     | _, _, _, _ => "fail conditional-per-shot unparsable-answer"
   | _ => "fail conditional-per-shot valid-conditional-did-not-complete"
